@@ -40,9 +40,20 @@ func buildParallelCases(e *Env, perType int, useRef bool) []pcase {
 	var cs []pcase
 	algs := c14algs()
 	for _, t := range e.Types() {
-		opts := e.caseOpts(t, perType, 0, false, false)
+		n := perType
+		for _, f := range t.Fields {
+			if f.Kind == "union" && !useRef {
+				// frames and extended messages are where the shared state (checksum registry, factory tables) is
+				// consulted: they get many more cases, so that several of the same kind are in flight at once
+				n = perType * 12
+				if f.Key == "MsgType" {
+					n = perType * 40
+				}
+			}
+		}
+		opts := e.caseOpts(t, n, 0, false, false)
 		for ci, o := range opts {
-			if ci >= perType {
+			if ci >= n {
 				break // only the plain cases: the 70 000-element specials of other checks would dominate the time
 			}
 			g := &gen.Gen{S: e.S, C: e.C, R: gen.NewRng(e.Seed, "C20", t.QName, ci), O: o}
@@ -103,6 +114,7 @@ func runParallel(e *Env, cs []pcase, G, ops int, label string) (evs [][]pevent, 
 			defer wg.Done()
 			rng := gen.NewRng(e.Seed, "C20", label, gi)
 			algs := c14algs()
+			sendBuf := new(bytes.Buffer)
 			my := make([]pevent, 0, 2*ops)
 			var mybad []pmismatch
 			atomic.AddInt32(&ready, 1)
@@ -114,17 +126,26 @@ func runParallel(e *Env, cs []pcase, G, ops int, label string) (evs [][]pevent, 
 			for k := 0; k < ops; k++ {
 				ci := rng.Intn(len(cs))
 				c := &cs[ci]
-				// encode a private clone into a private buffer
+				// encode a private clone into this goroutine's private send buffer, which usually still holds
+				// the frames queued before (it is emptied every 64 KiB)
 				m := val.Clone(c.v)
-				buf := new(bytes.Buffer)
+				if sendBuf.Len() > 64<<10 {
+					sendBuf.Reset()
+				}
+				pre := sendBuf.Len()
 				t0 := int64(time.Since(start))
-				err, p := LibEncode(m, buf)
+				err, p := LibEncode(m, sendBuf)
 				t1 := int64(time.Since(start))
 				my = append(my, pevent{int32(ci), 0, t0, t1})
-				if err != nil || p != nil || !bytes.Equal(buf.Bytes(), c.bytes) {
+				var app []byte
+				if sendBuf.Len() >= pre {
+					app = sendBuf.Bytes()[pre:]
+				}
+				if err != nil || p != nil || !bytes.Equal(app, c.bytes) {
 					if len(mybad) < 5 {
-						mybad = append(mybad, pmismatch{gi, ci, "encode", fmt.Sprintf("err=%v panic=%v got=%s want=%s", err, p, val.Hex(buf.Bytes(), 64), val.Hex(c.bytes, 64))})
+						mybad = append(mybad, pmismatch{gi, ci, "encode", fmt.Sprintf("err=%v panic=%v queued_before=%d got=%s want=%s", err, p, pre, val.Hex(app, 64), val.Hex(c.bytes, 64))})
 					}
+					sendBuf.Reset()
 					continue
 				}
 				// decode private bytes into a private object
@@ -245,6 +266,85 @@ func c20Child(e *Env, mode string) {
 		cs := buildParallelCases(e, per, false)
 		before := tableSnapshot(e)
 		evs, bad := runParallel(e, cs, G, ops, mode)
+		// phase 2: 160 goroutines decoding/encoding messages with 20 000-element lists, so that far more than 64
+		// calls are inside a list reader at the same instant (process-wide counters, depth guards, pools)
+		var long []pcase
+		algs := c14algs()
+		for _, t := range e.Types() {
+			has := false
+			for _, f := range t.Fields {
+				if f.Kind == "objlist" {
+					has = true
+				}
+			}
+			if !has || len(long) >= 8 {
+				continue
+			}
+			g := &gen.Gen{S: e.S, C: e.C, R: gen.NewRng(e.Seed, "C20-long", t.QName), O: &gen.Opts{Lens: []int{20000}, StrLens: []int{2}}}
+			v := g.Value(t)
+			if lb, err, p := EncodeFresh(val.Clone(v)); err == nil && p == nil {
+				w := append([]byte(nil), lb...)
+				d := e.C.New[t.QName]()
+				if err, p := LibDecode(d, bytes.NewBuffer(append([]byte(nil), w...))); err == nil && p == nil {
+					pc := pcase{t: t, v: v, bytes: w, want: d}
+					pc.sums, _ = calcAll(algs, w)
+					long = append(long, pc)
+				}
+			}
+		}
+		if len(long) > 0 {
+			n2 := 6
+			if mode == "race-workload-child" {
+				n2 = 2
+			}
+			old := runtime.GOMAXPROCS(256) // more runnable threads than cores: the OS preempts calls in the middle of a list
+			const G2 = 200
+			bad2 := make([]string, G2)
+			var ready int32
+			var wg sync.WaitGroup
+			for gi := 0; gi < G2; gi++ {
+				wg.Add(1)
+				go func(gi int) {
+					defer wg.Done()
+					c := &long[gi%len(long)]
+					imgs := make([][]byte, n2)
+					for k := range imgs {
+						imgs[k] = append([]byte(nil), c.bytes...)
+					}
+					atomic.AddInt32(&ready, 1)
+					for spins := 0; atomic.LoadInt32(&ready) < G2; spins++ {
+						if spins > 1000 {
+							runtime.Gosched()
+						}
+					}
+					for k := 0; k < n2; k++ {
+						d := e.C.New[c.t.QName]()
+						in := bytes.NewBuffer(imgs[k])
+						err, p := LibDecode(d, in)
+						if err != nil || p != nil || in.Len() != 0 {
+							bad2[gi] = fmt.Sprintf("%s: err=%v panic=%v left=%d", c.t.QName, err, p, in.Len())
+							return
+						}
+						if k == 0 {
+							if diff := val.Equal(c.want, d); diff != "" {
+								bad2[gi] = c.t.QName + ": " + diff
+								return
+							}
+						}
+					}
+				}(gi)
+			}
+			wg.Wait()
+			runtime.GOMAXPROCS(old)
+			r.Evals(int64(G2 * n2))
+			r.Set("phase2_long_list_decodes", map[string]any{"goroutines": G2, "decodes_each": n2, "GOMAXPROCS": 256, "list_elements": 20000, "types": len(long)})
+			for gi, b := range bad2 {
+				if b != "" {
+					r.Violate("C20/parallel-result-differs-from-sequential/decode/long-lists", "C20/parallel-result-differs-from-sequential", map[string]any{"goroutine": gi, "op": "decode", "detail": b, "build": mode, "phase": "200 goroutines decoding 20000-element lists under GOMAXPROCS 256"})
+					break
+				}
+			}
+		}
 		after := tableSnapshot(e)
 		st := concurrencyStats(cs, evs)
 		r.Evals(int64(st["library_calls"].(int)))
@@ -308,7 +408,7 @@ func c20(e *Env) {
 		c20Child(e, e.Args[0])
 		return
 	}
-	r.Rule("expected bytes/messages for 3 canonical values of each of the 170 types are computed first, sequentially; then 64 goroutines (busy-wait barrier, no channel or shared atomic inside the measured region) each perform 1000 (thorough 10000) encode+decode operations on randomly chosen cases, on private clones, private buffers and private receivers — frames and extended messages included, so the checksum registry and all 18 discriminator maps are read concurrently — plus, every fourth operation, a direct Calc of all four registered checksum services on a private buffer; the same workload with 250/2500 operations per goroutine in a -race build; first-use trials: 4 (thorough 32) fresh processes (alternating plain / -race builds) in which the very first touch of every table and checksum service happens concurrently from 16 goroutines, judged against the reference codec. distinct_nontrivial = distinct (type,type) pairs whose calls were observed overlapping in real time, summed over the runs")
+	r.Rule("expected bytes/messages for 3 canonical values of each of the 170 types are computed first, sequentially; then 64 goroutines (busy-wait barrier, no channel or shared atomic inside the measured region) each perform 1000 (thorough 10000) encode+decode operations on randomly chosen cases, on private clones, private send buffers that still hold the frames queued before, and private receivers — frames and extended messages included, so the checksum registry and all 18 discriminator maps are read concurrently — plus, every fourth operation, a direct Calc of all four registered checksum services on a private buffer; then 200 goroutines under GOMAXPROCS=256 decoding messages with 20 000-element object lists (far more than 64 calls inside a list reader at once); the same workload with 250/2500 operations per goroutine in a -race build; first-use trials: 4 (thorough 32) fresh processes (alternating plain / -race builds) in which the very first touch of every table and checksum service happens concurrently from 16 goroutines, judged against the reference codec. distinct_nontrivial = distinct (type,type) pairs whose calls were observed overlapping in real time, summed over the runs")
 	r.Explain("Oracle: every parallel result equals the sequential one (bytes byte-for-byte, messages ≡); zero race-detector reports (counted from the log) and no runtime 'concurrent map' abort; the registered key→type answers of all 18 factories are identical before and after. Evidence numbers (overlapping call pairs, concurrency histogram, distinct overlapping type pairs) are computed offline from per-goroutine logs.")
 	r.Assume("the exported Registry…Factory mutators are not called concurrently: the property says tables are only read after start-up", "the race detector judges only the accesses the workload performed")
 	type run struct{ bin, mode, label string }
